@@ -110,6 +110,7 @@ def main():
     ap.add_argument('--seed', type=int, default=1)
     ap.add_argument('--files', default=','.join(FILES))
     ap.add_argument('--out', default=os.path.join(ROOT, 'tools', 'mutants', 'report.json'))
+    ap.add_argument('--retry', default=None, help='re-run the mutants of an earlier report that were missed or hit a harness error')
     args = ap.parse_args()
     files = args.files.split(',')
     cands = candidates('/repo', files)
@@ -125,6 +126,10 @@ def main():
         picked.append(c)
         if len(picked) >= args.max:
             break
+    if args.retry:
+        old = json.load(open(args.retry))
+        picked = [dict((k, r[k]) for k in ('file', 'line', 'col', 'op', 'old', 'new', 'text')) for r in old
+                  if r['status'] == 'survives-suite' and (not r['caught_by'] or any(':' in c for c in r['caught_by']))]
     print('%d candidate mutants, %d picked' % (len(cands), len(picked)), flush=True)
     os.makedirs(os.path.dirname(args.out), exist_ok=True)
     for s in range(args.jobs):
